@@ -50,6 +50,22 @@ def nan_cells(kind, shape):
     raise ValueError(kind)
 
 
+def _maxof(vals):
+    b = vals[0]
+    for v in vals[1:]:
+        if v > b:
+            b = v
+    return b
+
+
+def _minof(vals):
+    b = vals[0]
+    for v in vals[1:]:
+        if v < b:
+            b = v
+    return b
+
+
 def configs(tier):
     q = tier == 'quick'
     shapes = [(3, 3), (3, 4), (4, 3), (4, 5)] if q else [(3, 3), (3, 4), (4, 3), (4, 5), (5, 5), (5, 6)]
@@ -275,6 +291,8 @@ def run(cfg, H):
             H.eq('mean ignores invalid samples', mean, sum(vals) * H.frac(1, n))
             H.eq('rms^2 == std^2 + mean^2', rms * rms, std * std + mean * mean)
             H.eq('rms^2 is the mean square of the valid samples', rms * rms, sum(v * v for v in vals) * H.frac(1, n))
+            H.eq('Sa is the mean absolute deviation of the valid samples', sa, sum(abs(v - mean) for v in vals) * H.frac(1, n))
+            H.eq('PV is max - min of the valid samples', pv, _maxof(vals) - _minof(vals))
         else:
             H.le('Sa <= std', sa, std)
             H.le('std <= PV', std, pv)
